@@ -871,6 +871,9 @@ func TestC38Slash16(t *testing.T) {
 		}
 		t.Skip()
 	}
+	if !shard0() {
+		t.Skip("complete enumeration: first shard only")
+	}
 	s.Exhaustive()
 	resetEnv()
 	check := func(a netip.Addr, host, enc string) {
